@@ -44,9 +44,26 @@ impl Scenario for C08 {
             life.gen.broker.closeok_delay_ns = cs.choose("closeok_delay_ms", 2600) as u64 * 1_000_000;
             life.gen.sched.hang_after_ns = 60_000_000_000;
         }
-        let (res, world) = run_generated(&life.gen, cs, text, |_| {});
+        // one session in six: both sides close at the same moment, and the I/O thread is descheduled around
+        // it so that the server's Connection.Close and the owner's close request are pending in one wake-up
+        // (in either order): whichever is handled first, the I/O thread must survive it
+        let both_at = if cs.choose("c08_both_close", 6) == 0 { Some(1_000 * (300 + cs.choose("c08_both_at_us", 15_000) as u64)) } else { None };
+        if let Some(at) = both_at {
+            life.gen.plan.owner_ops = vec![crate::session::OwnerOp::SleepNs(at)];
+            life.gen.plan.join_before_close = false;
+            life.gen.broker.script.retain(|(_, a)| !matches!(a, crate::broker::Action::CloseConnection { .. }));
+            life.gen.broker.script.push((crate::broker::Trigger::AtTime(at.saturating_sub(150_000)), crate::broker::Action::CloseConnection { code: 320, text: "CONNECTION_FORCED-both".into() }));
+            life.gen.broker.s2c_lat_max_ns = life.gen.broker.s2c_lat_max_ns.min(100_000);
+            life.gen.broker.s2c_lat_min_ns = life.gen.broker.s2c_lat_min_ns.min(life.gen.broker.s2c_lat_max_ns);
+        }
+        let (res, world) = run_generated(&life.gen, cs, text, move |_| {
+            if let Some(at) = both_at {
+                crate::world::call_in(at.saturating_sub(200_000), move |_| amiquip_simrt::stall_thread_named("amiquip-io", at + 300_000));
+            }
+        });
         let mut rep = CaseReport::default();
         fill_common(&mut rep, &res, &world);
+        rep.count("c08.both_sides_close_sessions", both_at.is_some() as u64);
         rep.sample = serde_json::json!({"plan": plan_summary(&life.gen), "conn_end": format!("{:?}", life.conn_end), "closeok_mode": format!("{:?}", life.gen.broker.closeok_mode), "consumers": life.consumers.iter().map(|c| format!("{:?}", c)).collect::<Vec<_>>()});
         for p in &res.run.panics {
             rep.violate("panic", format!("{}@{}", p.thread, p.location), format!("{} panicked: {}", p.thread, p.message));
